@@ -219,4 +219,47 @@ def topologyClauses (a b : Invariants) : List (String × Bool) :=
     ("same-number-of-index-2-subgroups", optAgree a.index2 b.index2),
     ("same-number-of-index-3-classes", optAgree a.classes3 b.classes3) ]
 
+/-! ## minimal image by partition refinement (for the corpus invariance clause)
+
+The minimal image of a connected D-symbol is its quotient by the coarsest equivalence that is
+compatible with all operations and with the degrees m_{i,i+1} = r·v.  It is computed the way a
+minimal automaton is: start from the classes of equal degree vectors and split classes whose
+members have neighbours in different classes until nothing changes.  Two symbols have
+isomorphic minimal images iff their canonical minimal images are equal. -/
+
+/-- number the distinct keys in order of first occurrence; returns the class of every chamber
+    (index 0 unused) and the number of classes -/
+def classify {α} [BEq α] (n : Nat) (key : Nat → α) : Array Nat × Nat :=
+  let r := (List.range n).foldl (fun (acc : Array Nat × List (α × Nat) × Nat) d0 =>
+    let k := key (d0 + 1)
+    match acc.2.1.find? (fun e => e.1 == k) with
+    | some e => (acc.1.setIfInBounds (d0 + 1) e.2, acc.2.1, acc.2.2)
+    | none => (acc.1.setIfInBounds (d0 + 1) (acc.2.2 + 1), (k, acc.2.2 + 1) :: acc.2.1, acc.2.2 + 1))
+    (Array.replicate (n + 1) 0, [], 0)
+  (r.1, r.2.2)
+
+def refineLoop (g : G) : Nat → Array Nat × Nat → Array Nat × Nat
+  | 0, c => c
+  | fuel + 1, c =>
+    let c' := classify g.size (fun d => c.1.getD d 0 :: g.indices.map (fun i => c.1.getD (g.op i d) 0))
+    if c'.2 == c.2 then c else refineLoop g fuel c'
+
+/-- the coarsest compatible partition: (class of every chamber, number of classes) -/
+def coarsest (g : G) : Array Nat × Nat :=
+  refineLoop g (g.size + 1)
+    (classify g.size (fun d => (List.range g.dim).map (fun i => (g.orbitLen i (i + 1) d).getD 0 * g.v i d)))
+
+/-- the quotient symbol: classes are numbered in order of their least members -/
+def minimalImage (g : G) : G :=
+  let (cls, k) := coarsest g
+  let rep : Array Nat := (g.chambers.reverse).foldl (fun (a : Array Nat) d => a.setIfInBounds (cls.getD d 0) d)
+    (Array.replicate (k + 1) 0)
+  let op := fun (i c : Nat) => if 1 ≤ c && c ≤ k && i ≤ g.dim then cls.getD (g.op i (rep.getD c 0)) 0 else 0
+  let q0 : G := { size := k, dim := g.dim, op := op, v := fun _ _ => 0 }
+  { q0 with v := fun i c =>
+      let d := rep.getD c 0
+      let m := (g.orbitLen i (i + 1) d).getD 0 * g.v i d
+      let r := (q0.orbitLen i (i + 1) c).getD 0
+      if r == 0 then 0 else m / r }
+
 end DSymVerif.SpecC16
